@@ -110,10 +110,11 @@ inline void run_case(const std::string& line) {
             } else if (k == "X") {   // X:a:val | X:s:val
                 begin_op(f.size() > 2 ? strtoull(f[2].c_str(), 0, 16) : 0); parse_scripts(sc, 1);
                 tok("[X" + f[1]);
-                if (f[1] == "a") api_exec_all(cur());
-                else if (api_msgq(cur()) > 0) api_exec_one(cur());
+                long n = -1;
+                if (f[1] == "a") n = api_exec_all(cur());
+                else if (api_msgq(cur()) > 0) n = api_exec_one(cur());
                 else tok("skip");
-                tok("]"); end_op(); emit_ids();
+                tok("]"); if (n >= 0) tok("xn=" + std::to_string(n)); end_op(); emit_ids();
             } else if (k == "B") {
                 std::string s; gen::probe_all(cur(), s); tok("PB{" + s + "}");
             } else if (k == "N") {   // pending count
